@@ -156,6 +156,18 @@ CHECKS.update({
             "DESIGN.md §3 C08"),
 })
 
+CHECKS.update({
+    "C09": ("exploration",
+            "body counters + boundary recorder of generator calls with an offline checker (functional / injective / stable / "
+            "exportable) and a cross-process comparison of the call->name map under different PYTHONHASHSEED and call orders",
+            "A seeded program over 9 generators covering every param-class shape and call form, recursion and hand-over of another "
+            "generator's module; every pair of calls of one generator is checked for memoisation and name injectivity, names are "
+            "re-read at the end, all results are instantiated in one exported parent, and the program is re-run in fresh "
+            "processes with shuffled order.",
+            "equality = == on validated param-class instances; exported name = qualname(module)",
+            "DESIGN.md §3 C09"),
+})
+
 NOT_APPLICABLE = {}
 
 
